@@ -131,7 +131,8 @@ pub enum Kept {
     MateInTwo,
     /// a longer forced mate is proven (within the bound)
     LongerProven,
-    /// provably no forced mate any more: stalemate, or a reply reaches a dead position
+    /// provably no forced mate any more: stalemate, a reply reaches a dead position, or the
+    /// opponent has a forced mate in two himself
     Lost,
     Unknown,
 }
@@ -149,6 +150,14 @@ pub fn keeps_forced_mate(p: &Pos, m: super::oracle::Mv, more_moves: u32, budget:
     }
     if replies.iter().any(|&r| dead_position(&q.make(r))) {
         return Kept::Lost;
+    }
+    // the opponent now mates by force (within two of its own moves, whatever the mover does,
+    // including any mating attempt of the mover): then the mover has no forced mate left
+    {
+        let mut b2 = 60_000i64;
+        if can_force_mate(&q, 2, &mut b2) == Some(true) {
+            return Kept::Lost;
+        }
     }
     let mut all = true;
     for &r in &replies {
